@@ -387,6 +387,12 @@ def explore_hashvars(cfg, depth, backend_cls, res, sink, shadow=None):
                                      note=f"{what} after {op}")
                         if res is not None:
                             res.outcomes.add(("hv", op[0], r[0], ok))
+                            if level == 1 and op[0] == "progcopy":
+                                res.sample(dict(cj, seq=[list(o) for o in
+                                                         seen[st]],
+                                                op=list(op),
+                                                cells_after=list(post)),
+                                           limit=5)
                         if ok and post not in seen:
                             seen[post] = seen[st] + (op,)
                             nxt.append(post)
@@ -764,6 +770,11 @@ def explore_dict(cfg, depth, backend_cls, res, sink, python_only=False,
                             res.nontrivial.add(core.digest(
                                 [cj, [list(x) for x in st], op]))
                             res.outcomes.add(("dict", op[0], r[0], ok))
+                            if level == 2 and op[0] in ("upd", "ppop"):
+                                res.sample(dict(cj, seq=[list(o) for o in
+                                                         seen[st]],
+                                                op=list(op), result=r),
+                                           limit=3)
                         if not ok and sink:
                             c2 = dict(cj, state=[list(x) for x in st],
                                       op=list(op),
